@@ -7,6 +7,7 @@ Markdown back into this structure.
 -/
 import Paroxy.Proofs.Report
 import Paroxy.Proofs.ReportOrder
+import Paroxy.Proofs.Recommend
 namespace Paroxy.Props.C17
 open Paroxy Paroxy.Filter Paroxy.Costs Paroxy.Report
 
@@ -162,5 +163,74 @@ example : (body (exampleInput false)).map listing =
     some [(.noGroup, [(0, codesOf "c.py"), (1 / 2, codesOf "a.py"), (5 / 4, codesOf "b.py")])] := by
   rw [body_of_presorted _ (by decide +kernel)]
   decide +kernel
+
+/-- **End to end.** For one recommender — `Recommendations(db)`, any number of `run_pipeline` calls,
+then `get_markdown` — with every database, oracle, strategy and option: when a report is produced,
+(1) the filter state it is built from is the one the concatenated commands compute (C04–C06 describe it);
+(2) the listed programs are exactly the selected, non-hidden ones of that state, each as often as it
+    is selected (once: the selection has no duplicates, `C17_listed_once`);
+(3) every section is under `cost_bucket(cost)`, its stated cost is the sum of the taxon costs of the
+    whole record of the program under the FINAL knowledge, and its table lists exactly the non-hidden
+    taxa of that record with their spans and that taxon cost. -/
+theorem C17_end_to_end (c : Ctx) (r : Relations) (strat : Strategy) (sloc : Codes → Nat) (sorting : Sorting)
+    (grouping : Bool) (runs : List (List Command)) (rep : Recommendation)
+    (h : recommend c r strat sloc sorting grouping runs = .ok rep) :
+    runPipeline c r (initState c.programs) runs.flatten = .ok rep.final ∧
+    (rep.body.flatMap fun g => g.2.map (·.path)).Perm
+      (rep.final.selected.filter fun p => !rep.final.hiddenPrograms.contains p) ∧
+    ∀ g ∈ rep.body, ∀ s ∈ g.2, ∃ rec, dictGet? c.programs s.path = some rec ∧
+      (grouping = true → g.1 = costBucket s.cost) ∧
+      s.cost = (rec.map fun ts => taxonCost strat rep.final.knowledge ts.1).sum ∧
+      ∀ row : Row, row ∈ s.rows ↔ (row.taxon, row.spans) ∈ rec ∧ row.taxon ∉ rep.final.hiddenTaxa ∧
+        row.cost = taxonCost strat rep.final.knowledge row.taxon := by
+  unfold recommend at h
+  cases hr : runsLogged c r (initState c.programs) [] runs with
+  | error e => rw [hr] at h; cases h
+  | ok v =>
+    obtain ⟨st, log⟩ := v
+    rw [hr] at h
+    simp only at h
+    cases ha : assess strat c.programs st.knowledge st.selected with
+    | none => rw [ha] at h; cases h
+    | some assessed =>
+      rw [ha] at h
+      simp only at h
+      generalize hi : (⟨strat, c.programs, sloc, st.knowledge, st.hiddenTaxa, st.hiddenPrograms, assessed, sorting,
+        grouping⟩ : Input) = i at h
+      cases hb : body i with
+      | none => rw [hb] at h; cases h
+      | some b =>
+        rw [hb] at h
+        cases h
+        subst hi
+        refine ⟨runsLogged_state c r runs _ [] st log hr, ?_, ?_⟩
+        · have hm := (C17_membership _ b hb).map (·.2)
+          have hp := (assess_spec strat c.programs st.knowledge st.selected assessed ha).1
+          have e1 : (b.flatMap fun g => g.2.map fun s => (s.cost, s.path)).map (·.2) =
+              b.flatMap fun g => g.2.map (·.path) := by
+            simp [List.map_flatMap, Function.comp_def]
+          have e2 : (assessed.filter fun cp => !st.hiddenPrograms.contains cp.2).map (·.2) =
+              (assessed.map (·.2)).filter fun p => !st.hiddenPrograms.contains p := by
+            rw [List.filter_map]; rfl
+          simp only at hm
+          rw [e1, e2] at hm
+          exact hm.trans (hp.filter _)
+        · intro g hg s hs
+          obtain ⟨rec, hrec, hrows⟩ := C17_rows _ b hb g hg s hs
+          obtain ⟨rec', hrec', hcost⟩ := C17_total _ st.selected ha b hb g hg s hs
+          have : rec' = rec := Option.some.inj (hrec'.symm.trans hrec)
+          subst this
+          exact ⟨rec', hrec, fun hgr => C17_bucket _ hgr b hb g hg s hs, hcost, hrows⟩
+
+/-- … and each listed program appears once: the selection of a well-formed database has no duplicate,
+and commands only ever remove programs. -/
+theorem C17_listed_once (c : Ctx) (r : Relations) (strat : Strategy) (sloc : Codes → Nat) (sorting : Sorting)
+    (grouping : Bool) (runs : List (List Command)) (rep : Recommendation)
+    (hn : (c.programs.map (·.1)).Nodup)
+    (h : recommend c r strat sloc sorting grouping runs = .ok rep) :
+    (rep.body.flatMap fun g => g.2.map (·.path)).Nodup := by
+  obtain ⟨h1, h2, _⟩ := C17_end_to_end c r strat sloc sorting grouping runs rep h
+  refine h2.nodup_iff.mpr (List.Nodup.sublist List.filter_sublist ?_)
+  exact List.Nodup.sublist (runPipeline_sublist c r _ _ _ h1) hn
 
 end Paroxy.Props.C17
